@@ -104,6 +104,17 @@ func inject(t *rapid.T, c *Case, kind string) (df Defect, ok bool) {
 		if len(cand) == 0 {
 			return setRef{}, false
 		}
+		// where the request has selection sets on interfaces or unions, they are chosen often (they
+		// are few next to those on objects)
+		var abstract []setRef
+		for _, sr := range cand {
+			if k := s.KindOf(sr.con); k == hx.KInterface || k == hx.KUnion {
+				abstract = append(abstract, sr)
+			}
+		}
+		if len(abstract) > 0 && rapid.Bool().Draw(t, "preferAbstractContainer") {
+			cand = abstract
+		}
 		// mostly choose a selection set that execution actually reaches (the lazy-validation finding
 		// would otherwise dominate)
 		var hot []setRef
